@@ -87,12 +87,17 @@ Fixpoint to_base_pos (k : nat) (n len : Z) : list Z :=
   | S j => let p := len ^ Z.of_nat j in ((n / p) mod len) :: to_base_pos j (n mod p) len
   end.
 
+(* elif lhs == 0: maximal_exponent = 0
+   else: maximal_exponent = int(log_mold_multi(lhs, len(rhs), ctx))   -- the parameter e
+   (the branch len(rhs) == 1 is base 1, outside the property) *)
+Definition elem_exponent (e : nat) (n : Z) : nat := if n =? 0 then O else e.
+
 (* numeric right operand b: rhs = list(range(0, b)), so rhs[d] = d *)
-Definition to_base_e (e : nat) (n b : Z) : list Z := to_base_pos (S e) n b.
+Definition to_base_e (e : nat) (n b : Z) : list Z := to_base_pos (S (elem_exponent e n)) n b.
 
 (* string right operand *)
 Definition to_base_alpha_e (e : nat) (n : Z) (alphabet : str) : option str :=
-  mapM_opt (py_index alphabet) (to_base_pos (S e) n (zlen alphabet)).
+  mapM_opt (py_index alphabet) (to_base_pos (S (elem_exponent e n)) n (zlen alphabet)).
 
 (* from_base: (str, str) -> from_base_alphabet ; (list, num) -> from_base_digits *)
 Definition from_base_num := from_base_digits.
@@ -188,13 +193,13 @@ Section Dict.
   Definition slice (s : str) (l r : nat) : str := firstn (r - l) (skipn l s).
 
   (* for left in range(lo, ind - 1): i = word_index(lhs[left:ind]); if i != -1: ...; break *)
-  Fixpoint first_word (s : str) (ind left count : nat) : option (nat * str) :=
+  Fixpoint first_word (s : str) (ind lft count : nat) : option (nat * str) :=
     match count with
     | O => None
     | S k =>
-        match word_index (slice s left ind) with
-        | Some code => Some (left, code)
-        | None => first_word s ind (S left) k
+        match word_index (slice s lft ind) with
+        | Some code => Some (lft, code)
+        | None => first_word s ind (S lft) k
         end
     end.
 
@@ -205,7 +210,7 @@ Section Dict.
     let lo := (ind - max_word_len)%nat in
     let cur :=
       match first_word s ind lo (ind - 1 - lo) with
-      | Some (left, code) => shorter ph (nth left dp ph ++ code)
+      | Some (lft, code) => shorter ph (nth lft dp ph ++ code)
       | None => ph
       end in
     dp ++ [shorter cur (nth (ind - 1) dp ph ++ firstn 1 (skipn (ind - 1) s))].
